@@ -81,20 +81,19 @@ def main():
         fh.write("\n")
     print({k: sum(len(v) for v in e.values()) for k, e in table.items()})
     # shapes of every function a rule is keyed on (parents of nested functions), for the alpha-normalisation pre-pass
-    from qv.core.alpha import shape_of, top_functions
-    wanted = {k for e in table.values() for k in e}
+    from qv.core.alpha import shape_of, statement_digests, top_functions
     shapes = {}
     for mname, m in repo.modules.items():
         for q, fn in top_functions(m.tree):
             key = f"{mname}:{q}"
-            if any(w == key or w.startswith(key + ".") for w in wanted):
-                digest, order = shape_of(fn)
-                if order:
-                    shapes[key] = {"digest": digest, "locals": order}
+            digest, order = shape_of(fn)
+            shapes[key] = {"digest": digest, "locals": order, "stmts": statement_digests(fn)}
+    import hashlib
+    shapes["__modules__"] = {mname: hashlib.sha256(m.source.encode()).hexdigest()[:20] for mname, m in repo.modules.items()}
     with open(os.path.join(rules_dir, "pinned_shapes.json"), "w") as fh:
         json.dump(shapes, fh, indent=1, sort_keys=True)
         fh.write("\n")
-    print(f"pinned shapes: {len(shapes)} functions")
+    print(f"pinned shapes: {len(shapes) - 1} functions")
 
 
 if __name__ == "__main__":
